@@ -1010,9 +1010,9 @@ class DcmMetaExtension(Nifti1Extension):
                 if sample_base == 'time':
                     #Take a subset of vector slices
                     n_slices = self.n_slices
-                    start_idx = idx * n_slices
-                    end_idx = start_idx + n_slices
                     for key, vals in iteritems(src_dict):
+                        start_idx = idx * n_slices
+                        end_idx = start_idx + n_slices
                         self.get_class_dict(src_class)[key] = \
                             deepcopy(vals[start_idx:end_idx])
                         self._simplify(key)
